@@ -9,6 +9,10 @@ import BlugeProofs.C18.Cjk
 import BlugeProofs.C18.Reverse
 import BlugeProofs.C18.Witness
 import BlugeProofs.C18.DepTokenizers
+import BlugeProofs.C18.StemNorm
+import BlugeProofs.C18.StemBytes
+import BlugeProofs.C18.StemLatin2
+import Bluge.C18.StemDrv
 /-! # C18 — analysis is total, deterministic and offset-correct on any bytes
 
 Property theorems only (lemmas: `BlugeProofs/C18/*.lean`; model: `Bluge/Analysis.lean`).
@@ -23,9 +27,19 @@ What is proved, over ALL byte strings, token streams and parameter values in the
 * what is NOT true of the code, with the concrete witness (
   `camel_safe_FULL_is_false`, `dict_safe_FULL_is_false`, `shingle_safe_FULL_is_false`) next to the partial claim.
 
-What is not proved (exercised by the correspondence stream only): no-panic and the term rewriting of the
-stemmers / normalisers / lower-casing and of the dependency tokenizers (blevesearch/segment, regexp) — they
-are term-only by the extracted table, so `term_only_filters_safe` covers their offsets, nothing more. -/
+* NO PANIC AND TERMINATION OF THE IN-REPO STEMMERS AND NORMALISERS (section "translated stemmers" at the end): the
+  rune helpers of analysis/util.go and the German, Arabic, Persian, Sorani, Hindi, Spanish, Italian, Portuguese and
+  French (light, minimal) stemmers / normalisers are TRANSLATED from the Go source on every run
+  (`BlugeGen.C18S`, go/extract/trans_runes.go); for each translated function `…_no_crash` says that no index or
+  slice expression is out of range, no `make` gets a negative length and every loop ends within its fuel, for
+  every input Go can hold (and, for the helpers, inside their stated domain); `…_filter_no_crash` lifts that to the
+  token filters, for every term. `stemmers_translated_all_proved` ties the list to the generator's table.
+
+What is not proved (exercised by the correspondence stream only): the term REWRITING of the stemmers (which
+stem they produce), no-panic of the dependency stemmers (snowballstem, go-porterstemmer), of the Indic
+normaliser (bitset / map code outside the translated subset), of lower-casing / unicode normalisation and of the
+dependency tokenizers (blevesearch/segment, regexp) — all term-only by the extracted table, so
+`term_only_filters_safe` covers their offsets, nothing more. -/
 namespace Bluge.C18
 open Bluge.Analysis
 
@@ -346,5 +360,176 @@ theorem filters_do_not_mutate_receiver :
 theorem index_and_query_call_analyze :
     BlugeGen.C18.analyzeCalls.contains ("field.go", "TermField.Analyze", "b.analyzer") = true ∧
     BlugeGen.C18.analyzeCalls.contains ("query.go", "MatchQuery.Searcher", "q.analyzer") = true := by decide
+
+/-! ## translated stemmers: no panic, termination (`BlugeGen.C18S`, regenerated from the Go source on every run)
+
+`r ≠ .crash` = the translated Go function does not panic: every index is in range, every slice expression has
+ordered bounds within the length, `make` never gets a negative length, and every `for` loop ends within the fuel
+the generator supplies. Hypotheses `xs.length < 2 ^ k` hold for every slice the Go runtime can hold (`len` is a
+non-negative `int`; the smaller exponents leave room for `4 * len(runes)` buffers and for U+FFFD re-encoding);
+`n.toNat < 2 ^ 63` is "the `int` n is not negative". -/
+
+section Stemmers
+open Bluge.Go Bluge.C18.Stem BlugeGen.C18S
+
+/-! ### analysis/util.go -/
+
+theorem DeleteRune_no_crash (in_ : List (BitVec 32)) (pos : BitVec 64) (h : in_.length < 2 ^ 63) (hp : pos.toNat < 2 ^ 63) :
+    DeleteRune in_ pos ≠ .crash := ne_crash_of_wp (DeleteRune_spec in_ pos h hp)
+
+/-- outside the domain: a negative position panics (the slice expression `in[pos:]`) -/
+theorem DeleteRune_negative_pos_panics : DeleteRune [0x61#32] (BitVec.ofInt 64 (-1)) = .crash := by decide
+
+theorem InsertRune_no_crash (in_ : List (BitVec 32)) (pos : BitVec 64) (r : BitVec 32) (h : in_.length + 1 < 2 ^ 63)
+    (hp : pos.toNat ≤ in_.length) : InsertRune in_ pos r ≠ .crash := ne_crash_of_wp (InsertRune_spec in_ pos r h hp)
+
+theorem InsertRune_past_end_panics : InsertRune [0x61#32] 2#64 0x62#32 = .crash := by decide
+
+/-- for ALL runes, valid or not (negative, surrogate, beyond U+10FFFF): the `4 * len(runes)` buffer always suffices -/
+theorem BuildTermFromRunes_no_crash (runes : List (BitVec 32)) (h : runes.length < 2 ^ 61) :
+    BuildTermFromRunes runes ≠ .crash := ne_crash_of_wp (BuildTermFromRunes_spec runes h)
+
+/-- with a caller-supplied buffer: for runes `utf8.RuneLen` accepts (any buffer), or any runes in a full-size buffer -/
+theorem BuildTermFromRunesOptimistic_no_crash (buf : List (BitVec 8)) (runes : List (BitVec 32))
+    (h : runes.length < 2 ^ 61) (hb : buf.length < 2 ^ 63)
+    (hv : (∀ r ∈ runes, ValidRune r) ∨ buf.length = 4 * runes.length) :
+    BuildTermFromRunesOptimistic buf runes ≠ .crash := ne_crash_of_wp (BuildTermFromRunesOptimistic_spec buf runes h hb hv)
+
+/-- FINDING (exported helper, not reachable from a bundled analyzer: `bytes.Runes` never yields such a rune,
+`runes_valid`): for a rune that `utf8.RuneLen` rejects the length test `used+(-1) > len(rv)` passes and
+`utf8.EncodeRune` writes the three bytes of U+FFFD into a buffer that is too short. Reproduced on the real code
+by the op `util BuildTermOpt 0 55296` (panic on both sides). -/
+theorem BuildTermFromRunesOptimistic_panics_on_invalid_rune_in_short_buffer :
+    BuildTermFromRunesOptimistic [] [0xD800#32] = .crash := by decide
+
+theorem TruncateRunes_no_crash (input : List (BitVec 8)) (num : BitVec 64) (h : input.length < 2 ^ 61)
+    (hn : num.toNat ≤ (GoStd.runes input).length) : TruncateRunes input num ≠ .crash :=
+  ne_crash_of_wp (TruncateRunes_spec input num h hn)
+
+theorem RunesEndsWith_no_crash (input : List (BitVec 32)) (suffix : List (BitVec 8)) (h : input.length < 2 ^ 63)
+    (hs : suffix.length < 2 ^ 63) : RunesEndsWith input suffix ≠ .crash :=
+  ne_crash_of_wp (RunesEndsWith_spec input suffix h hs)
+
+/-! ### the translated functions of analysis/lang -/
+
+theorem de_normalize_no_crash (input : List (BitVec 8)) (h : input.length < 2 ^ 60) : de_normalize input ≠ .crash :=
+  ne_crash_of_wp (de_normalize_spec input h)
+theorem de_step1_no_crash (s : List (BitVec 32)) (h : s.length < 2 ^ 63) : de_step1 s ≠ .crash :=
+  ne_crash_of_wp (de_step1_spec s h)
+theorem de_step2_no_crash (s : List (BitVec 32)) (h : s.length < 2 ^ 63) : de_step2 s ≠ .crash :=
+  ne_crash_of_wp (de_step2_spec s h)
+theorem de_stem_no_crash (input : List (BitVec 32)) (h : input.length < 2 ^ 63) : de_stem input ≠ .crash :=
+  ne_crash_of_wp (de_stem_spec input h)
+theorem ar_normalize_no_crash (input : List (BitVec 8)) (h : input.length < 2 ^ 60) : ar_normalize input ≠ .crash :=
+  ne_crash_of_wp (ar_normalize_spec input h)
+theorem ar_canStemPrefix_no_crash (input prefix_ : List (BitVec 32)) (h : input.length < 2 ^ 63) (hp : prefix_.length < 2 ^ 63) :
+    ar_canStemPrefix input prefix_ ≠ .crash := ne_crash_of_wp (ar_canStemPrefix_spec input prefix_ h hp)
+theorem ar_canStemSuffix_no_crash (input suffix : List (BitVec 32)) (h : input.length < 2 ^ 63) (hp : suffix.length < 2 ^ 63) :
+    ar_canStemSuffix input suffix ≠ .crash := ne_crash_of_wp (ar_canStemSuffix_spec input suffix h hp)
+theorem ar_stem_no_crash (input : List (BitVec 8)) (h : input.length < 2 ^ 61) : ar_stem input ≠ .crash :=
+  ne_crash_of_wp (ar_stem_spec input h)
+theorem fa_normalize_no_crash (input : List (BitVec 8)) (h : input.length < 2 ^ 60) : fa_normalize input ≠ .crash :=
+  ne_crash_of_wp (fa_normalize_spec input h)
+theorem ckb_normalize_no_crash (uc : GoStd.Unicode) (input : List (BitVec 8)) (h : input.length < 2 ^ 60) :
+    ckb_normalize uc input ≠ .crash := ne_crash_of_wp (ckb_normalize_spec uc input h)
+/-- `make([]byte, utf8.RuneLen(r))` needs a rune `RuneLen` accepts; `ckb.truncateRunes` only passes runes of `bytes.Runes` -/
+theorem ckb_buildTermFromRunes_no_crash (runes : List (BitVec 32)) (hv : ∀ r ∈ runes, ValidRune r) :
+    ckb_buildTermFromRunes runes ≠ .crash := ne_crash_of_wp (ckb_buildTermFromRunes_spec runes hv)
+theorem ckb_buildTermFromRunes_panics_on_invalid_rune : ckb_buildTermFromRunes [0xD800#32] = .crash := by decide
+theorem ckb_truncateRunes_no_crash (input : List (BitVec 8)) (num : BitVec 64) (h : input.length < 2 ^ 63)
+    (hn : num.toNat ≤ (GoStd.runes input).length) : ckb_truncateRunes input num ≠ .crash :=
+  ne_crash_of_wp (ckb_truncateRunes_spec input num h hn)
+theorem ckb_stem_no_crash (input : List (BitVec 8)) (h : input.length < 2 ^ 55) : ckb_stem input ≠ .crash :=
+  ne_crash_of_wp (ckb_stem_spec input h)
+theorem hi_normalize_no_crash (input : List (BitVec 8)) (h : input.length < 2 ^ 60) : hi_normalize input ≠ .crash :=
+  ne_crash_of_wp (hi_normalize_spec input h)
+theorem hi_stem_no_crash (input : List (BitVec 8)) (h : input.length < 2 ^ 61) : hi_stem input ≠ .crash :=
+  ne_crash_of_wp (hi_stem_spec input h)
+theorem es_stem_no_crash (input : List (BitVec 32)) (h : input.length < 2 ^ 63) : es_stem input ≠ .crash :=
+  ne_crash_of_wp (es_stem_spec input h)
+theorem it_stem_no_crash (input : List (BitVec 32)) (h : input.length < 2 ^ 63) : it_stem input ≠ .crash :=
+  ne_crash_of_wp (it_stem_spec input h)
+theorem pt_removeSuffix_no_crash (input : List (BitVec 32)) (h : input.length < 2 ^ 63) : pt_removeSuffix input ≠ .crash :=
+  ne_crash_of_wp (pt_removeSuffix_spec input h)
+theorem pt_normFeminine_no_crash (input : List (BitVec 32)) (h : input.length < 2 ^ 63) : pt_normFeminine input ≠ .crash :=
+  ne_crash_of_wp (pt_normFeminine_spec input h)
+theorem pt_stem_no_crash (input : List (BitVec 32)) (h : input.length < 2 ^ 63) : pt_stem input ≠ .crash :=
+  ne_crash_of_wp (pt_stem_spec input h)
+theorem fr_minstem_no_crash (input : List (BitVec 32)) (h : input.length < 2 ^ 63) : fr_minstem input ≠ .crash :=
+  ne_crash_of_wp (fr_minstem_spec input h)
+/-- for EVERY table `unicode.IsLetter` could be -/
+theorem fr_norm_no_crash (uc : GoStd.Unicode) (input : List (BitVec 32)) (h : input.length < 2 ^ 62) :
+    fr_norm uc input ≠ .crash := ne_crash_of_wp (fr_norm_spec uc input h)
+theorem fr_stem_no_crash (uc : GoStd.Unicode) (input : List (BitVec 32)) (h : input.length < 2 ^ 62) :
+    fr_stem uc input ≠ .crash := ne_crash_of_wp (fr_stem_spec uc input h)
+
+/-! ### the token filters (the `stem` correspondence ops run exactly these on the real term bytes) -/
+
+/-- `runes := bytes.Runes(term); runes = stem(runes); term = BuildTermFromRunes(runes)` -/
+theorem viaRunes_no_crash (stem : List (BitVec 32) → Res (List (BitVec 32))) (term : List (BitVec 8))
+    (h : term.length < 2 ^ 61)
+    (hs : ∀ rs : List (BitVec 32), rs.length < 2 ^ 61 → wp (stem rs) (fun o => o.length ≤ rs.length)) :
+    C18S.viaRunes stem term ≠ .crash := by
+  have hr := Stem.runes_length_le term
+  refine ne_crash_of_wp (Q := fun _ => True) ?_
+  unfold C18S.viaRunes
+  refine wp_bind_cut (hs _ (by omega)) (fun o ho => ?_)
+  exact BuildTermFromRunes_spec o (by omega)
+
+theorem de_light_filter_no_crash (term : List (BitVec 8)) (h : term.length < 2 ^ 61) : C18S.de_lightFilter term ≠ .crash :=
+  viaRunes_no_crash _ term h (fun rs hrs => de_stem_spec rs (by omega))
+theorem es_light_filter_no_crash (term : List (BitVec 8)) (h : term.length < 2 ^ 61) : C18S.es_lightFilter term ≠ .crash :=
+  viaRunes_no_crash _ term h (fun rs hrs => es_stem_spec rs (by omega))
+theorem it_light_filter_no_crash (term : List (BitVec 8)) (h : term.length < 2 ^ 61) : C18S.it_lightFilter term ≠ .crash :=
+  viaRunes_no_crash _ term h (fun rs hrs => it_stem_spec rs (by omega))
+theorem pt_light_filter_no_crash (term : List (BitVec 8)) (h : term.length < 2 ^ 61) : C18S.pt_lightFilter term ≠ .crash :=
+  viaRunes_no_crash _ term h (fun rs hrs => pt_stem_spec rs (by omega))
+theorem fr_min_filter_no_crash (term : List (BitVec 8)) (h : term.length < 2 ^ 61) : C18S.fr_minFilter term ≠ .crash :=
+  viaRunes_no_crash _ term h (fun rs hrs => fr_minstem_spec rs (by omega))
+theorem fr_light_filter_no_crash (uc : GoStd.Unicode) (term : List (BitVec 8)) (h : term.length < 2 ^ 61) :
+    C18S.fr_lightFilter uc term ≠ .crash :=
+  viaRunes_no_crash _ term h (fun rs hrs => fr_stem_spec uc rs (by omega))
+
+/-- every filter the `stem` op runs, on every term (shorter than 2^55 bytes), whatever the unicode tables: no panic -/
+theorem stem_filters_no_crash (uc : GoStd.Unicode) (name : String) (f : Bytes → Res Bytes) (hf : C18S.stemFn uc name = some f)
+    (term : List (BitVec 8)) (h : term.length < 2 ^ 55) : f term ≠ .crash := by
+  unfold C18S.stemFn at hf
+  split at hf <;> first
+    | (injection hf with hf; subst hf)
+    | cases hf
+  · exact de_normalize_no_crash term (by omega)
+  · exact de_light_filter_no_crash term (by omega)
+  · exact ar_normalize_no_crash term (by omega)
+  · exact ar_stem_no_crash term (by omega)
+  · exact fa_normalize_no_crash term (by omega)
+  · exact ckb_normalize_no_crash uc term (by omega)
+  · exact ckb_stem_no_crash term h
+  · exact hi_normalize_no_crash term (by omega)
+  · exact hi_stem_no_crash term (by omega)
+  · exact es_light_filter_no_crash term (by omega)
+  · exact it_light_filter_no_crash term (by omega)
+  · exact pt_light_filter_no_crash term (by omega)
+  · exact fr_light_filter_no_crash uc term (by omega)
+  · exact fr_min_filter_no_crash term (by omega)
+
+/-- the hypotheses are satisfiable and the definitions compute: `Häuser` → `haus` through the German light stemmer -/
+example : C18S.de_lightFilter [0x68#8, 0xc3#8, 0xa4#8, 0x75#8, 0x73#8, 0x65#8, 0x72#8] ≠ .crash :=
+  de_light_filter_no_crash _ (by decide)
+
+/-- the functions with a `…_no_crash` theorem above -/
+def stemmersProved : List String :=
+  ["analysis.DeleteRune", "analysis.InsertRune", "analysis.BuildTermFromRunesOptimistic", "analysis.BuildTermFromRunes",
+   "analysis.TruncateRunes", "analysis.RunesEndsWith",
+   "de.normalize", "de.stEnding", "de.step1", "de.step2", "de.stem", "ar.normalize", "ar.canStemPrefix", "ar.canStemSuffix", "ar.stem",
+   "fa.normalize", "ckb.normalize", "ckb.buildTermFromRunes", "ckb.truncateRunes", "ckb.stem", "hi.normalize", "hi.stem",
+   "es.stem", "it.stem", "pt.removeSuffix", "pt.normFeminine", "pt.stem", "fr.minstem", "fr.norm", "fr.stem"]
+
+/-- every function the generator translated has its theorem (`de.stEnding` has no index, slice or loop: it is
+translated as a pure `Bool` function, there is nothing that could panic) -/
+theorem stemmers_translated_all_proved :
+    BlugeGen.C18S.translated.all (fun n => stemmersProved.contains n) = true ∧ BlugeGen.C18S.translated.length = 30 := by
+  decide
+
+end Stemmers
 
 end Bluge.C18
